@@ -1,7 +1,7 @@
 #!/bin/bash
 # runs every seeded change against the check of the property it breaks; prints one line per seed
 cd /verif
-for d in seeded/S-* seeded/T-*; do
+for d in ${SEEDS:-seeded/S-* seeded/T-* seeded/U-*}; do
   k=$(basename $d); prop=$(python3 -c "import json;print(json.load(open('$d/meta.json'))['breaks_property'])")
   out=$(tools/seedrun.sh $k $prop 2>&1)
   code=$(echo "$out" | head -1 | sed 's/.*exit=//')
